@@ -215,6 +215,13 @@ def run(tier, seed):
         layer = rng.choice([3, 4, 5, 6, 3, 4, 0])
         ib = layer <= 2
         variant = rng.choice(["ok", "count-6", "count-8", "order-swap", "order-second-set"])
+        scripted = s < 6
+        if scripted:
+            # chip orders configured WITHOUT a chip count: a lane that carries a configured order followed by one more chip, and a lane
+            # that is a strict prefix of a configured order, are judged by the order rule alone
+            layer = [3, 5, 6, 4, 5, 3][s]
+            ib = False
+            variant = ["count-8", "count-8", "count-6", "count-8", "order-second-set", "count-6"][s]
 
         def chips_variant(r, variant=variant):
             if variant == "count-6":
@@ -244,6 +251,9 @@ def run(tier, seed):
         if rng.random() < 0.6:
             keys["chip_orders_ob"] = rng.choice([ORDERS, [ORDERS[0]], [ORDERS[1]], [[6, 5, 4, 3, 2, 1, 0]]])
         mode = rng.choice(["all stave", "all stave", "all its", "sanity its", "all none"])
+        if scripted:
+            keys = {"chip_orders_ob": [ORDERS, [ORDERS[0]], ORDERS, [ORDERS[0], ORDERS[1]], [ORDERS[1]], [ORDERS[0]]][s]}
+            mode = "all stave"
         head = "%s - %s" % (mode, json.dumps(keys, separators=(",", ":")) if keys else "-")
         llines.append(rawdata.link_line(head, cd))
         lmeta.append({"cd": cd, "keys": keys, "mode": mode, "version": version, "variant": variant, "layer": layer, "plans": plans, "npk": len(cd)})
@@ -257,6 +267,7 @@ def run(tier, seed):
         if got != mod.strip():
             chk.disagreements.append(dict(desc, impl=got[:500], model=mod[:500]))
         if got == "PANIC":
+            chk.spec_violations.append(dict(desc, detail=raw[:300], what="the validator crashes under a well-formed custom configuration: no verdict for the stream"))
             continue
         toks = [] if got == "-" else got.split(" ")
         # rdh_version: every RDH flagged on its header id (tag 1) iff the data version differs from the configured one
